@@ -17,7 +17,8 @@ RULE = (
     "changing packaging between cycles; plus a flat-XML export checked for well-formedness and inclusion of "
     "every paragraph text and image payload. One evaluation = one save judged (member set, every XML part "
     "C14N-equal, every other part byte-equal, then the same through odfdo's reopen). Class = (source kind/"
-    "doc type, parts parsed before the save, edit kinds present, packaging, cycle index)."
+    "doc type, parts parsed before the save, edit kinds present incl. set_part by shortcut name, packaging, "
+    "cycle index, same target as the previous cycle?)."
 )
 SHARDS = {"quick": 16, "thorough": 16}
 TIMEOUT = {"quick": 400, "thorough": 3600}
@@ -156,10 +157,11 @@ def run_case(case, res, rng=None):
                     res.cls((srckind, "flat-xml", parsed), True)
                 if v:
                     return [(m, dict(d, cycle=ci)) for m, d in v]
-            v, doc2 = judge_save(doc, model, cyc["how"], tmp, f"{ci}")
+            # cycles may save again at the same place (stale members of an earlier save must go)
+            v, doc2 = judge_save(doc, model, cyc["how"], tmp, "same" if case.get("same_target") else f"{ci}")
             if res is not None:
                 res.judge()
-                res.cls((srckind, cyc["how"], f"cycle{ci}", "parsed=" + parsed, "edits=" + "+".join(sorted(kinds)) if kinds else "edits=none"), True)
+                res.cls((srckind, cyc["how"], f"cycle{ci}", "parsed=" + parsed, "edits=" + "+".join(sorted(kinds)) if kinds else "edits=none", "same-target" if case.get("same_target") else ""), True)
             if v:
                 return [(m, dict(d, cycle=ci, how=cyc["how"], parsed=parsed)) for m, d in v]
             doc = doc2
@@ -171,7 +173,7 @@ def gen_case(rng):
     for _ in range(rng.choice([1, 1, 2, 3])):
         n = rng.choice([0, 0, 1, 2, 3, 5])
         cycles.append({"edits": DL.gen_edits(rng, n), "how": rng.choice(HOWS), "flat": rng.random() < 0.15})
-    return {"source": DL.gen_source(rng), "cycles": cycles}
+    return {"source": DL.gen_source(rng), "cycles": cycles, "same_target": rng.random() < 0.4}
 
 
 def run(ctx, res):
